@@ -22,6 +22,27 @@ let () =
             print_string (Printf.sprintf "D %d %d" !caseno i);
             List.iter (fun x -> print_char ' '; print_string (string_of_int (int_of_nat x))) d;
             print_newline ()) (run_alloc (nat_of_int (int_of_string cap)) ops)
+      | ["STEPS"; slots; p; q; nsteps] ->
+        (* step-stack model (coq/C16/StepStack.v run_steps): each step is one line
+           "T (kind count tag)*slots", kind 0 inactive / 1 active / 2 errored *)
+        incr caseno;
+        let n = int_of_string slots in
+        let steps = List.init (int_of_string nsteps) (fun _ ->
+            match words (input_line stdin) with
+            | "T" :: rest ->
+              let rec go k l = if k = 0 then [] else
+                  match l with
+                  | kd :: c :: t :: r ->
+                    { r_kind = (match int_of_string kd with 0 -> SInactive | 1 -> SActive | _ -> SErrored);
+                      r_count = nat_of_int (int_of_string c); r_tag = nat_of_int (int_of_string t) } :: go (k - 1) r
+                  | _ -> failwith "bad T" in
+              go n rest
+            | _ -> failwith "bad step") in
+        List.iteri (fun i d ->
+            print_string (Printf.sprintf "D %d %d" !caseno i);
+            List.iter (fun x -> print_char ' '; print_string (string_of_int (int_of_nat x))) d;
+            print_newline ())
+          (run_steps (nat_of_int n) (nat_of_int (int_of_string p)) (nat_of_int (int_of_string q)) steps)
       | _ -> ()
     done
   with End_of_file -> ());
